@@ -23,6 +23,21 @@ def step (s : St) : List String → St × String
         (s, s!"ok {sim.clock} {showStrs creates} {showStrs (calls.map showCall)}")
       | .error (_, sim) => (s, s!"err {sim.ctl.st}")
     | _, _, _ => (s, "bad-op")
+  | ["xsim", a, b, c, xs] =>
+    match a.toInt?, b.toInt?, c.toInt?, intList xs with
+    | some a, some b, some c, some xs =>
+      match simulateSizes Viv.Gen.nBuckets s.regs a b c xs 1000000 with
+      | .ok (sim, calls) =>
+        let creates := ((sim.ctl.log.zip sim.tlog).filter (·.1 == "create")).map (fun x => toString x.2)
+        (s, s!"ok {sim.clock} {showStrs creates} {showStrs (calls.map showCall)}")
+      | .error (_, sim) => (s, s!"err {sim.ctl.st}")
+    | _, _, _, _ => (s, "bad-op")
+  | ["split", t, h, stop, a, d] =>
+    match t.toInt?, h.toInt?, stop.toInt?, a.toInt?, d.toInt? with
+    | some t, some h, some stop, some a, some d =>
+      let r := splitRun stop h a d 1000000 t
+      (s, s!"{r.1} {r.2.1} {r.2.2.1} {r.2.2.2}")
+    | _, _, _, _, _ => (s, "bad-op")
   | ["emit", ch, a, b] =>
     match a.toInt?, b.toInt? with
     | some a, some b => (s, showStrs ((deliver Viv.Gen.nBuckets s.regs ch a b).map showCall))
